@@ -112,7 +112,11 @@ func (c14) Batch(seed uint64, wid, batch, count int, deadline time.Time, emit fu
 	for h := range hset {
 		rec.Hashes = append(rec.Hashes, h)
 	}
-	rec.Counts["sites_preempted_in_batch"] = int64(len(sites))
+	var sl []uint32
+	for st := range sites {
+		sl = append(sl, st)
+	}
+	rec.Extra = map[string]interface{}{"sites": sl}
 	emit(rec)
 }
 
